@@ -75,8 +75,10 @@ Lemma suffix_tables_nonempty : (20 <= List.length integer_suffixes)%nat /\ (6 <=
 Proof. split; apply Nat.leb_le; vm_compute; reflexivity. Qed.
 
 (* refuted shapes (genuine defects, KNOWN_FINDINGS): each witness is valid C and is NOT accepted *)
-Lemma refuted_k1 : shape_k1 (s "0xb3ba") = true /\ int_body (s "0xb3ba") = Some Hex /\ lex_one_ok (s "CONSTANT") (s "0xb3ba") (s ";") = false
-  /\ lex_one_diag (s "INVALID_SUFFIX") (s "0xb3ba") (s ";") = true.
+(* the former finding K1 (repaired in the source): constants of the shape shape_k1 are accepted *)
+Lemma accepted_k1_shape : shape_k1 (s "0xb3ba") = true /\ int_body (s "0xb3ba") = Some Hex /\ lex_one_ok (s "CONSTANT") (s "0xb3ba") (s ";") = true
+  /\ lex_one_diag (s "INVALID_SUFFIX") (s "0xb3ba") (s ";") = false
+  /\ shape_k1 (s "0XBB98Bl") = true /\ lex_one_ok (s "CONSTANT") (s "0XBB98Bl") (s ";") = true.
 Proof. vm_compute. repeat split. Qed.
 Lemma refuted_hex_e_suffix : lex_one_ok (s "CONSTANT") (s "0x1eu") (s "+1") = false /\ lex_one_ok (s "CONSTANT") (s "0x1eu") (s ";") = true.
 Proof. vm_compute. repeat split. Qed.
